@@ -1,6 +1,7 @@
 """C02 Progress: correct leaders' blocks are finalized once the network is timely."""
 from .. import pool as P
 from .. import sim as S
+from .. import nodetrace as NT
 from .. import votor as V
 from ..core import ToolError
 from . import c05, c07
@@ -109,6 +110,7 @@ def run(ctx):
         # vacuity: some window must be judged
         import re
         n_events = sum(1 for _ in open(trace))
+        NT.check(ctx, "nt_" + name, trace, stakes, [i for i in range(len(stakes)) if i not in byz], config=sc)
         rej = S.validate(ctx, "tv_" + name, trace, stakes, byz, module="Trace_Progress",
                          invs=S.TRACE_INVS + ["GoalAtEnd"], extra_consts=cfg_extra)
         if rej:
